@@ -19,7 +19,7 @@ TAG_PROPERTY = {
     "ev.plan": "C06", "ev.status": "C06", "plans": "C06", "pex": "C06", "succ": "C06", "fail": "C06", "tasks": "C06", "hst": "C06", "sst": "C06",
     "plog": "C07", "mon.plan.iter": "C07", "mon.plan.chain": "C07", "mon.plan.disjoint": "C07", "mon.plan.count": "C07", "mon.plan.free": "C07",
     "prev": "C09", "tt": "C09", "last": "C09",
-    "mon.idle.pe": "C13", "mon.idle.px": "C13", "mon.idle.pc": "C13", "mon.idle.px.D10": "C13", "mon.idle.pc.D10": "C13", "mon.scheduled": "C13", "sub": "C13",
+    "mon.idle.pe": "C13", "mon.idle.px": "C13", "mon.idle.pc": "C13", "mon.idle.px.D10": "C13", "mon.idle.pc.D10": "C13", "mon.scheduled": "C13", "mon.resume": "C13", "sub": "C13",
     "isR": "C13", "isS": "C13", "ev.guard.queries": "C13", "pe": "C13", "px": "C13", "pc": "C13", "ev.config": "C13",
     "prev.payload": "C14", "ev.guard.payload": "C14", "ev.life.payload": "C14",
     "mon.payload.guard": "C14", "mon.payload.life": "C14", "mon.payload.prev": "C14",
